@@ -558,6 +558,7 @@ class Program:
 
 
 _PARSE_CACHE: dict = {}
+_CORE = ("abstract", "models", "helpers", "utils", "hypertuner", "multitask")
 
 
 def _parse(path: str, rel: str, override: Optional[str]):
@@ -578,6 +579,10 @@ def _parse(path: str, rel: str, override: Optional[str]):
         tree = ast.parse(src, filename=rel)
     except SyntaxError as exc:
         raise AnalysisError(f"cannot parse {rel}: {exc}") from exc
+    parts = rel.replace(os.sep, "/").split("/")
+    if len(parts) == 2 and parts[0] == PKG and parts[1][:-3] in _CORE and not os.environ.get("PVLINT_NO_NORMALIZE"):
+        from .normalize import normalize_module
+        tree = normalize_module(tree)       # semantics-preserving canonical forms for the anchor modules
     set_parents(tree)
     if key is not None:
         _PARSE_CACHE[key] = (src, tree)
